@@ -730,14 +730,30 @@ Proof.
   apply noref_bind; [apply enc_items_noref; exact He|]. intros [b st1] _. apply noref_ok.
 Qed.
 
+Lemma of_opt_noref o st : noref (of_opt o st).
+Proof. destruct o; nr. Qed.
+
+Lemma enc_string_noref bs st : noref (enc_string bs st).
+Proof. unfold enc_string. destruct (_ <? _); nr. Qed.
+
+Lemma enc_bytes_noref bs st : noref (enc_bytes bs st).
+Proof. unfold enc_bytes. destruct (_ <? _); nr. Qed.
+
 Lemma enc_prim_noref p v st : noref (enc_prim p v st).
 Proof.
-  intros n. unfold enc_prim, enc_string, enc_bytes.
-  destruct p; destruct v as [x|z|bs|tag vs]; try discriminate;
-    try (destruct (_ <? _); discriminate); try apply enc_dedup_noref.
-  - destruct tag; [|discriminate]. destruct vs; discriminate.
-  - destruct tag; [|discriminate].
-    destruct vs as [|[?|?|?|? ?] [|[?|?|?|? ?] [|? ?]]]; discriminate.
+  unfold enc_prim.
+  destruct p; try apply of_opt_noref;
+    destruct v as [x|z|bs|tag vs]; try nr;
+    try apply enc_string_noref; try apply enc_bytes_noref; try apply enc_dedup_noref.
+  all: repeat first
+         [ nr
+         | apply noref_ok
+         | apply of_opt_noref | apply enc_string_noref
+         | apply noref_bind; [| intros [? ?] _]
+         | match goal with
+           | |- noref (match ?x with _ => _ end) => destruct x
+           | |- noref (if ?c then _ else _) => destruct c
+           end ].
 Qed.
 
 (* a record whose field was made optional and later made transient (or removed) remains
@@ -900,15 +916,26 @@ Proof.
       reflexivity.
 Qed.
 
+Lemma of_opt_good o st : egood st (of_opt o st).
+Proof. destruct o; [apply egood_ok | exact I]. Qed.
+
 Lemma enc_prim_good p v st : egood st (enc_prim p v st).
 Proof.
   unfold enc_prim.
-  destruct p; destruct v as [x|z|bs|tag vs]; try exact I; try apply egood_ok;
+  destruct p; try apply of_opt_good;
+    destruct v as [x|z|bs|tag vs]; try exact I; try apply egood_ok;
     try apply enc_string_good; try apply enc_bytes_good; try apply enc_dedup_good.
-  - destruct tag; [|exact I]. destruct vs; [apply egood_ok | exact I].
-  - destruct (_ <? _); [apply egood_ok | exact I].
-  - destruct tag; [|exact I].
-    destruct vs as [|[?|?|?|? ?] [|[?|?|?|? ?] [|? ?]]]; try exact I. apply egood_ok.
+  all: repeat first
+         [ exact I
+         | apply egood_ok
+         | apply of_opt_good | apply enc_string_good
+         | eapply egood_bind; [| intros ? ? _ _; cbv beta iota]
+         | match goal with
+           | |- egoodP _ _ (match ?x with _ => _ end) => destruct x
+           | |- egoodP _ _ (if ?c then _ else _) => destruct c
+           | |- egood _ (match ?x with _ => _ end) => destruct x
+           | |- egood _ (if ?c then _ else _) => destruct c
+           end ].
 Qed.
 
 (* ---------- sequences ---------- *)
